@@ -104,7 +104,12 @@ fn primitives_case(case: &Case, ev: &Evidence) -> CaseResult {
             let x = a.kdf_extract(&salt, &ikm).map(|v| v.to_vec());
             let y = b.kdf_extract(&salt, &ikm).map(|v| v.to_vec());
             eq("kdf_extract", e(x.clone()), e(y), format!("salt {} ikm {}", salt.len(), ikm.len()))?;
-            let prk = x.unwrap_or_else(|_| rng.bytes(nh));
+            // the PRK given to Expand is usually the output of Extract (Nh bytes), but any longer key is a valid HMAC key too
+            let prk = match rng.below(4) {
+                0 => rng.bytes(nh + 1 + rng.below(2 * nh as u64) as usize),
+                1 => rng.bytes(nh),
+                _ => x.unwrap_or_else(|_| rng.bytes(nh)),
+            };
             let info = rng.bytes(edge_len(&rng).min(600));
             let len = match rng.below(6) {
                 0 => 1,
@@ -113,7 +118,10 @@ fn primitives_case(case: &Case, ev: &Evidence) -> CaseResult {
                 3 => 255 * nh + 1,
                 _ => 1 + rng.below(3 * nh as u64) as usize,
             };
-            eq("kdf_expand", e(a.kdf_expand(&prk, &info, len).map(|v| v.to_vec())), e(b.kdf_expand(&prk, &info, len).map(|v| v.to_vec())), format!("info {} len {len}", info.len()))?;
+            eq("kdf_expand", e(a.kdf_expand(&prk, &info, len).map(|v| v.to_vec())), e(b.kdf_expand(&prk, &info, len).map(|v| v.to_vec())), format!("prk {} info {} len {len}", prk.len(), info.len()))?;
+            if prk.len() > nh {
+                ev.class("kdf_expand_with_prk_longer_than_nh");
+            }
             ev.class("kdf");
             ev.nontrivial(&("kdf", &prk, &info, len));
         }
@@ -406,6 +414,12 @@ mod x509gen {
     }
 
     pub fn make(name: &str, serial: u32, ca: bool, nb: i64, na: i64, issuer: Option<&Node>, sign_with: Option<&PKey<Private>>) -> Node {
+        make_with(name, serial, ca, true, nb, na, issuer, sign_with)
+    }
+
+    /// `extensions = false`: a v3 certificate without BasicConstraints / KeyUsage at all (never a CA)
+    #[allow(clippy::too_many_arguments)]
+    pub fn make_with(name: &str, serial: u32, ca: bool, extensions: bool, nb: i64, na: i64, issuer: Option<&Node>, sign_with: Option<&PKey<Private>>) -> Node {
         let k = key();
         let mut nbld = X509NameBuilder::new().unwrap();
         nbld.append_entry_by_text("CN", name).unwrap();
@@ -421,16 +435,18 @@ mod x509gen {
         b.set_pubkey(&k).unwrap();
         b.set_not_before(&Asn1Time::from_unix(nb).unwrap()).unwrap();
         b.set_not_after(&Asn1Time::from_unix(na).unwrap()).unwrap();
-        let mut bc = BasicConstraints::new();
-        bc.critical();
-        if ca {
-            bc.ca();
-        }
-        b.append_extension(bc.build().unwrap()).unwrap();
-        if ca {
-            b.append_extension(KeyUsage::new().critical().key_cert_sign().crl_sign().build().unwrap()).unwrap();
-        } else {
-            b.append_extension(KeyUsage::new().critical().digital_signature().build().unwrap()).unwrap();
+        if extensions {
+            let mut bc = BasicConstraints::new();
+            bc.critical();
+            if ca {
+                bc.ca();
+            }
+            b.append_extension(bc.build().unwrap()).unwrap();
+            if ca {
+                b.append_extension(KeyUsage::new().critical().key_cert_sign().crl_sign().build().unwrap()).unwrap();
+            } else {
+                b.append_extension(KeyUsage::new().critical().digital_signature().build().unwrap()).unwrap();
+            }
         }
         let signer = sign_with.unwrap_or_else(|| issuer.map(|i| &i.key).unwrap_or(&k));
         b.sign(signer, MessageDigest::sha256()).unwrap();
@@ -475,13 +491,19 @@ fn x509_case(seed: u64, ev: &Evidence) -> CaseResult {
         ChainClass::ReorderedIntermediates => 2,
         _ => rng.below(3) as usize,
     };
+    let bare_non_ca = rng.below(2) == 0;
+    if class == ChainClass::NonCaIssuer {
+        ev.class(if bare_non_ca { "x509:non_ca_issuer_without_basic_constraints" } else { "x509:non_ca_issuer_with_ca_false" });
+    }
     let root = make("root", 1, true, nb, na, None, None);
     let other_root = make("other root", 2, true, nb, na, None, None);
     let mut inters: Vec<Node> = vec![];
     for i in 0..n_inter {
         let parent = inters.last().unwrap_or(&root);
         let ca = !(class == ChainClass::NonCaIssuer && i == n_inter - 1);
-        let n = make(&format!("intermediate {i}"), 10 + i as u32, ca, nb, na, Some(parent), None);
+        // the non-CA issuer either says CA:FALSE or carries no BasicConstraints at all
+        let bare = !ca && bare_non_ca;
+        let n = make_with(&format!("intermediate {i}"), 10 + i as u32, ca, !bare, nb, na, Some(parent), None);
         inters.push(n);
     }
     let (lnb, lna) = match class {
